@@ -291,6 +291,63 @@ var pool = []struct {
 	{"/etc/nginx/stream-conf.d/stream.conf", false},
 }
 
+// bootstrapPaths are the files NGINX needs in order to start (shipped in the image / written by the init
+// container): the only files a start-up may leave in the managed folders. (The list the code uses,
+// ignoreFilePaths of folders.go, is pinned to the same three paths by the theorem facts_ignore_paths.)
+var bootstrapPaths = []string{
+	"/etc/nginx/main-includes/main.conf",
+	"/etc/nginx/main-includes/mgmt.conf",
+	"/etc/nginx/main-includes/deployment_ctx.json",
+}
+
+// lookalikes are stale files a previous incarnation may have left whose NAMES equal, end with, start with or
+// contain a bootstrap file name — in another folder, or in the same folder under a longer name. None of them is
+// a bootstrap file: start-up must remove every one (a restarted control plane tracks nothing, so whatever
+// start-up leaves is never removed afterwards).
+var lookalikes = []string{
+	"/etc/nginx/conf.d/main.conf",
+	"/etc/nginx/conf.d/mgmt.conf",
+	"/etc/nginx/conf.d/xmain.conf",
+	"/etc/nginx/conf.d/deployment_ctx.json",
+	"/etc/nginx/stream-conf.d/main.conf",
+	"/etc/nginx/stream-conf.d/old-mgmt.conf",
+	"/etc/nginx/secrets/mgmt.conf",
+	"/etc/nginx/secrets/deployment_ctx.json",
+	"/etc/nginx/secrets/prev_deployment_ctx.json",
+	"/etc/nginx/includes/main.conf",
+	"/etc/nginx/includes/SnippetsFilter_http_default_main.conf",
+	"/etc/nginx/includes/SnippetsFilter_main_ns_main.conf",
+	"/etc/nginx/includes/SnippetsFilter_http.server_ns_mgmt.conf",
+	"/etc/nginx/includes/ClientSettingsPolicy_ns_main.conf",
+	"/etc/nginx/main-includes/xmain.conf",
+	"/etc/nginx/main-includes/SnippetsFilter_main_ns_main.conf",
+	"/etc/nginx/main-includes/my-mgmt.conf",
+	"/etc/nginx/main-includes/old_deployment_ctx.json",
+	"/etc/nginx/main-includes/main.conf.bak",
+	"/etc/nginx/main-includes/main.config",
+	"/etc/nginx/main-includes/mgmt.conf.d",
+	"/etc/nginx/main-includes/main.con",
+	"/etc/nginx/main-includes/ain.conf",
+	"/etc/nginx/main-includes/deployment_ctx.json.tmp",
+}
+
+// genStartupInit: the bootstrap files plus a handful of look-alike leftovers.
+func genStartupInit(r *rng.R) []FsEnt {
+	var out []FsEnt
+	for _, p := range bootstrapPaths {
+		if r.Chance(2, 3) {
+			out = append(out, FsEnt{Path: p, Mode: 0o644, Content: randBytes(r, 7, 10)})
+		}
+	}
+	names := append([]string(nil), lookalikes...)
+	rng.Shuffle(r, names)
+	for _, p := range names[:r.Range(3, 6)] {
+		out = append(out, FsEnt{Path: p, Mode: 0o644, Content: randBytes(r, 1, 4)})
+	}
+	sort.Slice(out, func(i, j int) bool { return out[i].Path < out[j].Path })
+	return out
+}
+
 func randBytes(r *rng.R, lo, hi int) []byte {
 	n := r.Range(lo, hi)
 	b := make([]byte, n)
@@ -329,7 +386,7 @@ func genInit(r *rng.R) []FsEnt {
 		return out
 	}
 	// bootstrap files (long content, so that a missing truncate shows) and leftovers of a previous run
-	for _, p := range file.VerifIgnoreFilePaths() {
+	for _, p := range bootstrapPaths {
 		if r.Chance(2, 3) {
 			out = append(out, FsEnt{Path: p, Mode: 0o644, Content: randBytes(r, 7, 10)})
 		}
@@ -360,6 +417,12 @@ func genInit(r *rng.R) []FsEnt {
 
 func genBase(r *rng.R, nsets, maxFiles int, family string) Scenario {
 	sc := Scenario{Init: genInit(r), Family: family}
+	if family == "startup" {
+		sc.Init = genStartupInit(r)
+		if nsets > 2 {
+			nsets = 2
+		}
+	}
 	sc.Steps = append(sc.Steps, Step{Kind: 'S'})
 	for i := 0; i < nsets; i++ {
 		var files []file.File
@@ -449,6 +512,7 @@ func Run(args []string) int {
 	genDoubles := fl.Int("gendoubles", -2, "the same for the sequences of the real-generator family (default: as -doubles)")
 	workers := fl.Int("workers", 8, "parallel workers")
 	tmp := fl.String("tmp", "/verif/work/tmp", "parent of the scratch roots")
+	genSets := fl.Int("gensets", 0, "additionally run the real Generate on this many random configurations (GP lines only)")
 	replay := fl.String("replay", "", "run exactly this scenario (model vocabulary) and print it")
 	replayFile := fl.String("replayfile", "", "run every scenario of this file (one per line, '#' comments)")
 	if err := fl.Parse(args); err != nil {
@@ -561,6 +625,8 @@ func Run(args []string) int {
 		}
 		family := "synthetic"
 		switch q % 5 {
+		case 2:
+			family = "startup"
 		case 3:
 			family = "dups"
 		case 4:
@@ -623,6 +689,27 @@ func Run(args []string) int {
 		dres := runAll(djobs)
 		emit(djobs, dres)
 	}
+	// generated-set correspondence only: the real Generate on many more configurations (cheap, no disk involved)
+	gr := rng.New(*seed ^ 0x9e3779b97f4a7c15)
+	for i := 0; i < *genSets; i++ {
+		if gen, _, _, _, err := runGenerate(gr.Fork()); err != nil {
+			fmt.Fprintf(out, "X generate: %v\n", err)
+		} else {
+			outsideMu.Lock()
+			for _, f := range gen {
+				realPaths[f.Path] = true
+				if !inManaged(f.Path) {
+					outside[f.Path] = true
+				}
+			}
+			outsideMu.Unlock()
+		}
+	}
+	gpMu.Lock()
+	for _, l := range gpLines {
+		fmt.Fprintln(out, l)
+	}
+	gpMu.Unlock()
 	outsideMu.Lock()
 	for p := range outside {
 		fmt.Fprintf(out, "P %s\n", p)
